@@ -543,7 +543,18 @@ pub fn c16_helper_defs() -> Vec<Def> {
 /// untagged candidates with pairwise different outermost tags (and none that a random explicit
 /// tag can collide with: explicit UNIVERSAL numbers start at 40, APPLICATION avoids 9, PRIVATE
 /// avoids 2 and 40, context avoids 5)
-fn c16_untagged_pool() -> Vec<Type> {
+fn c16_untagged_pool(next: &mut dyn FnMut() -> u64) -> Vec<Type> {
+    let small = || Type::int(0, 3);
+    // UNIVERSAL 16 and 17 each in one of several spellings (reference, inline list, inline structure)
+    let u16 = match next() % 3 {
+        0 => Type::Ref("RefSeq".into()),
+        1 => Type::SequenceOf { elem: Box::new(small()), size: Some(Size::fixed(1, false)) },
+        _ => Type::Sequence(Fields { comps: vec![comp("q", small(), Presence::Mandatory)], root: None }),
+    };
+    let u17 = match next() % 2 {
+        0 => Type::SetOf { elem: Box::new(small()), size: Some(Size::fixed(1, false)) },
+        _ => Type::Set(Fields { comps: vec![comp("q", small(), Presence::Mandatory)], root: None }),
+    };
     vec![
         Type::int(0, 7),
         Type::Boolean,
@@ -554,9 +565,48 @@ fn c16_untagged_pool() -> Vec<Type> {
         Type::Ref("RefTagged".into()),
         Type::Ref("RefPlainStr".into()),
         Type::Ref("RefChoice".into()),
-        Type::Ref("RefSeq".into()),
+        u16,
         Type::Ref("RefPriv".into()),
+        u17,
+        Type::Enumerated { items: vec![("a".into(), None), ("b".into(), None)], root: None },
     ]
+}
+
+/// Systematic part of C16 part a: every pair of untagged candidates with different outermost tags
+/// (all spellings of UNIVERSAL 16 / 17 included) next to one explicitly tagged component - so
+/// that no automatic tagging takes place and every pair meets in both textual orders.
+pub fn c16_pair_family() -> Vec<Fields> {
+    let small = || Type::int(0, 3);
+    // (outermost tag as sort key, type)
+    let cands: Vec<(u32, Type)> = vec![
+        (2, Type::int(0, 7)),
+        (1, Type::Boolean),
+        (4, Type::OctetString { size: Some(Size::fixed(1, false)) }),
+        (3, Type::BitString { size: Some(Size::fixed(9, false)), named: vec![] }),
+        (22, Type::Str { cs: Charset::Ia5, size: Some(Size::fixed(1, false)) }),
+        (5, Type::Null),
+        (1009, Type::Ref("RefTagged".into())),
+        (12, Type::Ref("RefPlainStr".into())),
+        (2005, Type::Ref("RefChoice".into())),
+        (16, Type::Ref("RefSeq".into())),
+        (16, Type::SequenceOf { elem: Box::new(small()), size: Some(Size::fixed(1, false)) }),
+        (16, Type::Sequence(Fields { comps: vec![comp("q", small(), Presence::Mandatory)], root: None })),
+        (3040, Type::Ref("RefPriv".into())),
+        (17, Type::SetOf { elem: Box::new(small()), size: Some(Size::fixed(1, false)) }),
+        (17, Type::Set(Fields { comps: vec![comp("q", small(), Presence::Mandatory)], root: None })),
+        (10, Type::Enumerated { items: vec![("a".into(), None), ("b".into(), None)], root: None }),
+    ];
+    let mut out = Vec::new();
+    for i in 0..cands.len() {
+        for j in i + 1..cands.len() {
+            if cands[i].0 == cands[j].0 {
+                continue;
+            }
+            let third = Comp { name: "f2".into(), tag: Some(Tag { class: TagClass::Context, number: 7 }), ty: Type::Boolean, presence: Presence::Mandatory };
+            out.push(Fields { comps: vec![comp("f0", cands[i].1.clone(), Presence::Mandatory), comp("f1", cands[j].1.clone(), Presence::Mandatory), third], root: None });
+        }
+    }
+    out
 }
 
 fn c16_tagged_pool() -> Vec<Type> {
@@ -567,7 +617,7 @@ fn c16_tagged_pool() -> Vec<Type> {
 pub fn c16_fields(next: &mut dyn FnMut() -> u64) -> Fields {
     let n = 2 + (next() % 4) as usize; // 2..5
     let mode = next() % 5; // 0: none tagged (automatic), 1: all tagged, else mixed
-    let mut untagged = c16_untagged_pool();
+    let mut untagged = c16_untagged_pool(next);
     let tagged = c16_tagged_pool();
     let mut used: Vec<Tag> = Vec::new();
     let mut comps = Vec::new();
@@ -600,8 +650,10 @@ pub fn c16_fields(next: &mut dyn FnMut() -> u64) -> Fields {
             let k = (next() % untagged.len() as u64) as usize;
             (untagged.remove(k), None)
         };
-        let presence = match next() % 4 {
-            0 => Presence::Optional,
+        let presence = match (next() % 4, &ty) {
+            (0, _) => Presence::Optional,
+            (1, Type::Integer { range: Some(r), .. }) => Presence::Default(DefaultVal { lit: Lit::Int(r.lb.as_ref().map(|n| n.value).unwrap_or(0)), via: None }),
+            (1, Type::Boolean) => Presence::Default(DefaultVal { lit: Lit::Bool(true), via: None }),
             _ => Presence::Mandatory,
         };
         comps.push(Comp { name: format!("f{i}"), tag, ty, presence });
